@@ -16,11 +16,13 @@ OPAQUE = ("std::time::Instant", "std::time::Duration", "std::net::SocketAddr")
 
 
 class Run:
-    def __init__(self, prog, key, names=None, hooks=None, pre_hooks=None, local_models=None, setup=None, track_content=False, bool_vars=True):
+    def __init__(self, prog, key, names=None, hooks=None, pre_hooks=None, local_models=None, setup=None, track_content=False, bool_vars=True, max_parts=None):
         self.prog = prog
         self.it = it = Interp(prog, M, INVARIANTS, trace=__import__("os").environ.get("E2_TRACE"))
         it.bool_vars = bool_vars
         it.track_content = track_content
+        if max_parts:
+            it.max_parts = max_parts
         it.opaque = OPAQUE
         it.ret_hooks.update(hooks or {})
         it.pre_hooks.update(pre_hooks or {})
